@@ -139,6 +139,11 @@ func main() {
 	dir, rm := fix.ScratchDir()
 	defer rm()
 	b, err := bench.Start(ctx, dir, ids, []string{crypto.UnchainedSchemeID, crypto.DefaultSchemeID, crypto.SigsOnG1ID}, time.Second, fix.Logger())
+	for attempt := 0; err != nil && attempt < 3; attempt++ {
+		// a port picked for the daemon can be taken before it is bound: start again with fresh ports
+		time.Sleep(300 * time.Millisecond)
+		b, err = bench.Start(ctx, dir, ids, []string{crypto.UnchainedSchemeID, crypto.DefaultSchemeID, crypto.SigsOnG1ID}, time.Second, fix.Logger())
+	}
 	if err != nil {
 		c.EngineError("daemon bench did not start: %v", err)
 		c.Finish("")
